@@ -93,6 +93,34 @@ int main(int argc, char **argv) {
     inputs[name] = in;
     add(name, isX ? "xgen" : "asmgen", src, isX);
   }
+  // A few large binaries (hundreds of kilobytes): a table of DATA words with code that reads words
+  // spread over it, the last ones close to its end, prints a byte of each and exits with their sum.
+  if (genCount > 0) {
+    static const unsigned sizes[] = {49000, 50010, 52000, 61000, 100003, 150000};
+    for (unsigned b = 0; b < 6; b++) {
+      sim::Rng r(sim::mix64(seed, 0xB16, b));
+      unsigned n = sizes[b];
+      std::vector<unsigned> picks = {0, 1, n / 3, n / 2, 50000 < n ? 50001u : n - 3, n - 2, n - 1};
+      std::string src = "BR start\nDATA 199000\nstart\nLDAC 0\nSTAM acc\n";
+      for (unsigned k : picks) {
+        std::string lab = "t" + std::to_string(k);
+        src += "LDAM " + lab + "\nLDBM acc\nOPR ADD\nSTAM acc\n";                        // acc += table[k]
+        src += "LDAM " + lab + "\nLDBM 1\nSTAI 2\nLDAC 0\nSTAI 3\nLDAC 1\nOPR SVC\n";    // put(table[k] & 255, 0)
+      }
+      src += "LDAM acc\nLDBM 1\nSTAI 2\nLDAC 0\nOPR SVC\nacc\nDATA 0\n";
+      std::string table;
+      table.reserve((size_t)n * 16);
+      for (unsigned k = 0; k < n; k++) {
+        bool labelled = std::find(picks.begin(), picks.end(), k) != picks.end();
+        if (labelled) table += "t" + std::to_string(k) + "\n";
+        table += "DATA " + std::to_string((int64_t)(int32_t)r.u32()) + "\n";
+      }
+      std::string name = "big" + std::to_string(b);
+      Json in = Json::array(); in.push("");
+      inputs[name] = in;
+      add(name, "asmbig", src + table, false);
+    }
+  }
   sim::writeFile(argv[2], out.dump() + "\n");
   std::fprintf(stderr, "mkcorpus: %zu images\n", out.size());
   return out.size() ? 0 : 1;
